@@ -38,9 +38,13 @@ def gen_cases(rng, tier, info):
             if rng.random() < 0.35:
                 h.cmds.append("(readonly_session %s)" % MODES[(i + j) % 3])
                 sessions += 1
+        if j % 3 == 1:
+            h.cmds.append("(add_signature)")     # a signed package: reading it and closing it must leave the signature alone
         for m in MODES:
             h.cmds.append("(readonly_session %s)" % m)
             sessions += 1
+        if j % 3 == 1:
+            h.cmds.append("(has_sig)")
         h.cmds.append("(snapshot)")
         cases.append(Case("ro-%d" % j, h.cmds))
     # files written by another encoder (unused pool entries incl. ones still holding text, duplicates, three-byte refs ...)
